@@ -18,6 +18,10 @@ pub mod strs {
     pub uninterp spec fn sp_u64(s: Str) -> Option<u64>;     // u64::from_str
     pub uninterp spec fn sp_strip_prefix(s: Str, p: Seq<char>) -> Option<Str>;
     pub uninterp spec fn sp_is(s: Str, lit: Seq<char>) -> bool;   // s == "literal"
+    pub uninterp spec fn sp_is_nocase(s: Str, lit: Seq<char>) -> bool;   // s.eq_ignore_ascii_case("literal")
+    pub uninterp spec fn sp_starts_with(s: Str, lit: Seq<char>) -> bool;
+    pub uninterp spec fn sp_ends_with(s: Str, lit: Seq<char>) -> bool;
+    pub uninterp spec fn sp_char_boundary(s: Str, i: usize) -> bool;
     /// `str::split(sep)` as an iterator over its (assumed) element sequence; `split` always yields >= 1 element.
     pub struct Split { pub rest: Ghost<Seq<Str>> }
     impl Split {
@@ -38,6 +42,12 @@ pub mod strs {
         #[verifier::external_body] pub fn len(&self) -> (r: usize) ensures r == sp_len(*self) { unimplemented!() }
         /// `&s[a..b]` (rule R19): the slicing panic conditions are preconditions.
         #[verifier::external_body] pub fn slice(&self, a: usize, b: usize) -> (r: Str) requires a <= b <= sp_len(*self) ensures r == sp_slice(*self, a, b) { unimplemented!() }
+        /// `split_at(mid)` panics unless `mid` is a char boundary within the string: precondition (ASCII strings: every index <= len is one).
+        #[verifier::external_body] pub fn split_at(&self, mid: usize) -> (r: (Str, Str)) requires mid <= sp_len(*self), sp_char_boundary(*self, mid) ensures r.0 == sp_slice(*self, 0, mid), r.1 == sp_slice(*self, mid, sp_len(*self)) { unimplemented!() }
+        #[verifier::external_body] pub fn eq_ignore_ascii_case(&self, lit: &str) -> (r: bool) ensures r == sp_is_nocase(*self, lit@) { unimplemented!() }
+        #[verifier::external_body] pub fn starts_with(&self, lit: &str) -> (r: bool) ensures r == sp_starts_with(*self, lit@) { unimplemented!() }
+        #[verifier::external_body] pub fn ends_with(&self, lit: &str) -> (r: bool) ensures r == sp_ends_with(*self, lit@) { unimplemented!() }
+        #[verifier::external_body] pub fn is_empty(&self) -> (r: bool) ensures r == (sp_len(*self) == 0) { unimplemented!() }
         #[verifier::external_body] pub fn strip_prefix(&self, p: &str) -> (r: Option<Str>) ensures r == sp_strip_prefix(*self, p@) { unimplemented!() }
         #[verifier::external_body] pub fn is(&self, lit: &str) -> (r: bool) ensures r == sp_is(*self, lit@) { unimplemented!() }
     }
